@@ -131,6 +131,15 @@ def returned_directly(body, x):
         t = b["term"]
         if t["k"] == "switch" and t.get("bool_return") and t["on"][0] in ("mv", "cp") and len(t["on"][1]) == 1 and t["on"][1][0] in flows:
             return True
+    # `if v { true } else { false }`, `match v { true => true, .. }`, a verdict handed back by an inlined helper …: evaluate the body
+    # as a function of this one comparison
+    if isinstance(x, dict) and "bb" in x and body.nblocks <= 400:
+        try:
+            tt = closure_truth_table(body, lambda b_, cs: ("V", True) if (cs["bb"], cs["d"]) == (x["bb"], x["d"]) else None)
+        except Exception:
+            tt = None
+        if tt is not None and tt[0] == ["V"] and all(v == dict(k)["V"] for k, v in tt[1].items()):
+            return True
     return False
 
 
